@@ -57,8 +57,18 @@ B_FULL = B_SMALL + (("D", "b", Y, False), ("D", "a", Y, False))
 D_ALL = (None, "d", "e")
 
 
+def kind_change_with_children():
+    g, m = world.F(b"G-id", X, False), world.F(b"M-id", Y, False)
+    return [
+        {"k": world.D(b"K-id"), "k/g": g, "k/m": m},
+        {"k": world.D(b"K-id"), "k/g": g},
+        {"k": world.F(b"K-id", X, False), "m": m},
+        {"k": world.F(b"K-id", X, False), "m": m, "a": world.F(b"A-id", X, False)},
+    ]
+
+
 def space(level):
-    """level 0: 55 trees (quick); level 1: the larger products (thorough)."""
+    """level 0: 59 trees (quick); level 1: the larger products (thorough)."""
     out = []
     seen = set()
 
@@ -69,6 +79,11 @@ def space(level):
         if key not in seen:
             seen.add(key)
             out.append(t)
+    # id K as a directory WITH children (G = k/g, M = k/m) against K as a file, the children
+    # deleted (G) or moved to the root (M): exercises "stopped being a directory -> the old
+    # children belong to the selection" in both directions
+    for t in kind_change_with_children():
+        add(t)
     if level == 0:
         for a, b, d in itertools.product(A_SMALL, B_SMALL, D_ALL):
             add(_mk(a, b, d, None))
